@@ -57,6 +57,10 @@ def _current():
 def _scenario(draw):
     def q(dim, lo, hi):
         u = draw(st.sampled_from(ref.UNITS_BY_DIM[dim]))
+        if dim == "temperature" and draw(st.integers(0, 3)) == 0:
+            # a quantity that reads exactly 0 on its scale (0 C, 0 F) is a value like any other
+            u = draw(st.sampled_from(["Celsius", "Fahrenheit"]))
+            return [ref.to_si(0.0, u), u, "exact-zero"]
         return [draw(st.floats(lo, hi)), u]   # value is in SI, expressed in unit u at build time
     return {
         "P": draw(_config()), "Q": draw(_config()),
@@ -83,7 +87,9 @@ def _scenario(draw):
 
 
 def _mk(pair):
-    si, u = pair
+    si, u = pair[0], pair[1]
+    if len(pair) > 2:
+        return Unit[u](0.0)
     return Unit[u](ref.from_si(si, u))
 
 
@@ -298,8 +304,8 @@ def _value(draw, kind, unit):
     mag = {"small": draw(st.floats(1e-4, 1e-2)), "typical": draw(st.floats(0.1, 40.0)), "large": draw(st.floats(40.0, 400.0)),
            "neg": -draw(st.floats(0.1, 40.0))}[special]
     if kind == "angle":
-        lim = abs(ref.from_si(1.4, unit))
-        return math.copysign(min(abs(mag), lim), mag)
+        # any magnitude, also beyond one turn (the constructor's wrap applies to bare and explicit numbers alike)
+        return mag * draw(st.sampled_from([1.0, 1.0, 10.0]))
     # (trajectory_step=0 is that signature's documented "not given" default: no zero for kind "step")
     if kind in ("range", "step", "gstep"):
         ft = {"range": abs(mag) * 15.0 + 30.0, "step": abs(mag) * 2.0 + 5.0, "gstep": abs(mag) / 40.0 + 0.1}[kind]
